@@ -53,5 +53,11 @@ func LoadFileLines(f string) ([]string, error) {
 		lines = append(lines, scanner.Text())
 	}
 
+	// a line longer than the scanner's buffer (or a read error) ends the scan early; do not hand
+	// back the lines read so far as if they were the whole file.
+	if err = scanner.Err(); err != nil {
+		return []string{}, err
+	}
+
 	return lines, nil
 }
